@@ -54,7 +54,7 @@ func (c Config) Key() string {
 	if c.Footnote && c.FootnoteOpt != "" {
 		b.WriteString("fnopt=" + c.FootnoteOpt + ",")
 	}
-	if (c.Footnote && c.FootnoteOpt != "" || c.GFM && c.TableAlign != "") && c.OptsVia != "" {
+	if (c.Footnote && c.FootnoteOpt != "" || c.GFM && (c.TableAlign != "" || c.LinkifyOpt != "")) && c.OptsVia != "" {
 		b.WriteString("optsvia=" + c.OptsVia + ",")
 	}
 	f(c.Typographer, "typographer")
@@ -88,6 +88,7 @@ func (c Config) C15Applies() bool { return c.AutoID && !c.Attribute && !c.Unsafe
 func (c Config) Build() goldmark.Markdown {
 	var exts []goldmark.Extender
 	var viaR []renderer.Option // extension options passed as renderer options
+	var viaP []parser.Option   // ... and as parser options
 	via := c.OptsVia == "renderer"
 	if c.GFM {
 		if c.TableAlign == "" && c.LinkifyOpt == "" {
@@ -112,18 +113,28 @@ func (c Config) Build() goldmark.Markdown {
 					table = extension.NewTable(extension.WithTableCellAlignMethod(m))
 				}
 			}
+			var lo []extension.LinkifyOption
 			switch c.LinkifyOpt {
 			case "":
 			case "protocols":
-				linkify = extension.NewLinkify(extension.WithLinkifyAllowedProtocols([]string{"http:", "https:", "ftp:", "custom:"}))
+				lo = append(lo, extension.WithLinkifyAllowedProtocols([]string{"http:", "https:", "ftp:", "custom:"}))
 			case "regexp":
-				linkify = extension.NewLinkify(
+				lo = append(lo,
 					extension.WithLinkifyAllowedProtocols([]string{"http:", "https:"}),
 					extension.WithLinkifyURLRegexp(regexp.MustCompile(`^(?:http|https)://[-a-zA-Z0-9@:%._\+~#=]{1,256}\.[a-z]{2,8}(?:[/?#][^\s<]*)?`)),
 					extension.WithLinkifyWWWRegexp(regexp.MustCompile(`^www\.[-a-zA-Z0-9]{1,64}\.[a-z]{2,8}(?:[/?#][^\s<]*)?`)),
 					extension.WithLinkifyEmailRegexp(regexp.MustCompile(`^[a-zA-Z0-9.+_-]+@[a-zA-Z0-9-]+\.[a-zA-Z]{2,8}`)))
 			default:
 				panic("bad linkify_opt " + c.LinkifyOpt)
+			}
+			switch {
+			case len(lo) == 0:
+			case via: // linkify options handed to goldmark.WithParserOptions, the plain extension.Linkify in the list
+				for _, o := range lo {
+					viaP = append(viaP, o)
+				}
+			default:
+				linkify = extension.NewLinkify(lo...)
 			}
 			exts = append(exts, table, extension.Strikethrough, linkify, extension.TaskList)
 		}
@@ -178,7 +189,7 @@ func (c Config) Build() goldmark.Markdown {
 	default:
 		panic("bad cjk " + c.CJK)
 	}
-	var popts []parser.Option
+	popts := viaP
 	if c.AutoID {
 		popts = append(popts, parser.WithAutoHeadingID())
 	}
@@ -255,7 +266,7 @@ func genConfig(r *Rng, mode string) Config {
 	if c.Footnote && ro.Chance(1, 3) {
 		c.FootnoteOpt = pick(ro, []string{"prefix", "prefixfn", "titles"})
 	}
-	if rv := ro.Split("opts-via"); (c.Footnote && c.FootnoteOpt != "" || c.GFM && c.TableAlign != "") && rv.Chance(1, 3) {
+	if rv := ro.Split("opts-via"); (c.Footnote && c.FootnoteOpt != "" || c.GFM && (c.TableAlign != "" || c.LinkifyOpt != "")) && rv.Chance(1, 3) {
 		c.OptsVia = "renderer"
 		if c.Footnote && rv.Chance(1, 3) {
 			c.FootnoteOpt = "both"
@@ -287,6 +298,48 @@ func parserSide(c Config) Config {
 		c.CJK = "default"
 	}
 	return c
+}
+
+// configVariant: the same extensions as c with other options (extension options, the way they
+// are delivered, parser options). Two instances of c and of its variant used in one process,
+// or at the same time, give whatever they share below the surface conflicting settings.
+func configVariant(r *Rng, c Config, c15 bool) Config {
+	v := c
+	for i := 0; i < 6 && (v == c || r.Chance(1, 2)); i++ {
+		switch r.Intn(8) {
+		case 0:
+			if c.GFM {
+				v.LinkifyOpt = pick(r, []string{"", "protocols", "regexp"})
+			}
+		case 1:
+			if c.Footnote {
+				v.FootnoteOpt = pick(r, []string{"", "prefix", "prefixfn", "titles", "both"})
+			}
+		case 2:
+			if c.Typographer {
+				v.TypoSubs = !v.TypoSubs
+			}
+		case 3:
+			if c.GFM {
+				v.TableAlign = pick(r, []string{"", "style", "attribute", "none"})
+			}
+		case 4:
+			v.OptsVia = pick(r, []string{"", "renderer"})
+		case 5:
+			if !c15 {
+				v.Attribute = !v.Attribute
+			}
+		case 6:
+			if !c15 {
+				v.AutoID = !v.AutoID
+			}
+		default:
+			if c.CJK != "" {
+				v.CJK = pick(r, []string{"default", "css3", "escaped"})
+			}
+		}
+	}
+	return v
 }
 
 // rendererVariant returns a configuration whose PARSER side is exactly c's and whose renderer
